@@ -226,5 +226,5 @@ def _twin_case(draw):
 
 def subs(tier: str):
     q = tier == "quick"
-    return [Sub("plots", check, "hypothesis", strategy=lambda: _case(8), examples=120 if q else 4000),
+    return [Sub("plots", check, "hypothesis", strategy=lambda: _case(8), examples=200 if q else 4000),
             Sub("same-flags-other-shape", check, "hypothesis", strategy=_twin_case, examples=10 if q else 300)]
